@@ -6,7 +6,8 @@ ENTRY = {'parts': [{'scenario': 'scenarios.s_mgr', 'chunk': 5}],
 TEXT = {'level': 'Seeded search over schedules (pre-emption at every simulated kernel call: socket read/write/accept/'
           'connect, thread lock operations of the server, blocking referent calls) of the real managers.Server '
           '(accepter + one thread per connection, all actors) and 1-3 simulated client processes x 1-2 threads '
-          'running generated programs of list/dict/Namespace/Value/Array/Lock/Queue proxy operations with unique '
+          'running generated programs of list/dict/Namespace/Value/Array/Lock/RLock/Semaphore/BoundedSemaphore/'
+          'Event/Queue proxy operations (incl. str(), _getvalue(), +=, *=) with unique '
           'values, non-exposed method calls, proxy creation, pickle copies, hand-over to child processes '
           '(spawn-style and plain pickles, sender pinned until the receiver has rebuilt), drops in any order, '
           'and wrong-key clients (SyncManager.connect, Client, forged proxy, raw peers that skip or ignore the '
@@ -20,5 +21,6 @@ TEXT = {'level': 'Seeded search over schedules (pre-emption at every simulated k
          'kernel call, not the bytecode); the blocking referents (Lock, Queue, ...) are simulated equivalents of '
          'threading.Lock/queue.Queue; BaseManager.start() (fork of the server process) and Server.shutdown via '
          'the manager finalizer are not exercised, the server runs in a simulated process and is stopped by a '
-         'direct shutdown request; a cyclic-GC pass is an explicit event.',
+         'direct shutdown request; a cyclic-GC pass is an explicit event. Known finding (known_findings.json): an '
+         'RLock acquired through a proxy is lost when the thread drops another proxy of the same object.',
  'ref': 'DESIGN.md 5 (C20), 4 (S-MGR); simos/seams_mgr.py'}
